@@ -225,6 +225,11 @@ func c02Stanza(g G, kind string, i int, compNS bool) string {
 		attrs += " type='" + typ + "'"
 		// usually one payload child; sometimes several (the first decides the payload, the
 		// others must still be consumed whole)
+		if g.Pct("abyss", 1) {
+			// "arbitrarily deep nesting": deeper than any recursion that is bounded by a stack can follow
+			n := []int{20000, 120000, 250000}[g.N("abyss-depth", 3)]
+			b.WriteString("<deep xmlns='unknown:deep'>" + strings.Repeat("<a>", n) + "x" + strings.Repeat("</a>", n) + "</deep>")
+		}
 		for k, nk := 0, 1+g.Weighted("iq-extra-kids", 7, 2, 1); k < nk; k++ {
 			switch g.Weighted("ipl", 2, 2, 2, 3, 1, 1, 1) {
 			case 6:
